@@ -507,6 +507,13 @@ func getObjStm(r Getter, stream *Stream, getInt getIntFn, enc *encryptInfo) (_ *
 	if err != nil {
 		return nil, err
 	}
+	defer func() {
+		if err != nil {
+			// the caller never sees the decoder: release it (and any
+			// helper goroutine of its filters) here
+			decoded.Close()
+		}
+	}()
 	s := newScanner(decoded, getInt, enc)
 
 	idx := make([]stmObj, n)
